@@ -53,6 +53,17 @@ func par2Cycle(r *Run, o cycleOpts) {
 		}
 		paths = p2
 	}
+	if !o.big && t.Bool(1, 25, "library-defaults") {
+		// let Create pick its documented defaults (slice size 2000, 3
+		// recovery blocks, default goroutine count)
+		w.S, w.R, w.G = 2000, 3, 0
+		w.N = 0
+		for _, f := range w.Files {
+			w.N += (len(f.Data) + w.S - 1) / w.S
+		}
+		w.UseDefaults = true
+		r.Probe("library-defaults")
+	}
 	cre := r.Create2(w, paths, nil, r.drawSched(1, 6))
 	r.noPanic(cre)
 	if cre.Err != nil {
@@ -202,7 +213,29 @@ func par2Cycle(r *Run, o cycleOpts) {
 		}
 	}
 	hostile := ""
-	if o.hostileRecovery && t.Bool(1, 2, "hostile-recovery") {
+	if o.hostileRecovery && len(w.Files[0].Data) > 16384+2*w.S && len(w.Files) > 1 && t.Bool(1, 3, "late-failure") {
+		// a Repair that gets some files right and then fails on a later
+		// one: one file only needs reassembling (junk appended), another
+		// lost a slice beyond its first 16 KiB, and the recovery block
+		// that will be used for it is format-valid but wrong
+		other := 1 + t.Draw(len(w.Files)-1, "reassemble-which")
+		cur, ok := w.Disk.Get(w.Path(other))
+		if ok {
+			w.Disk.Put(w.Path(other), append(append([]byte(nil), cur...), 0xAA, 0xBB, 0xCC))
+		}
+		big := append([]byte(nil), w.Files[0].Data...)
+		k := 16384/w.S + 1 + t.Draw((len(big)-16384)/w.S-1, "late-slice")
+		for i := k * w.S; i < (k+1)*w.S && i < len(big); i++ {
+			big[i] ^= 0x5c
+		}
+		w.Disk.Put(w.Path(0), big)
+		hostile = "forged-lowest-block"
+		if !w.forgeLowestBlock(r) {
+			hostile = "none"
+		}
+		r.Probe("late-failure-scenario")
+		kinds = append(kinds, "late-failure")
+	} else if o.hostileRecovery && t.Bool(1, 2, "hostile-recovery") {
 		hostile = w.hostileRecovery(r)
 	}
 	tr := w.TruthPar2()
@@ -215,9 +248,22 @@ func par2Cycle(r *Run, o cycleOpts) {
 	}
 	r.Logf("truth N=%d lower=%d upper=%d intactExps=%v recoveryDamaged=%v premise=%v", tr.Scan.N, tr.Scan.Lower, tr.Scan.Upper, tr.IntactExps, tr.RecoveryDamaged, premise)
 
+	// the index path as the caller spells it: absolute, or relative to
+	// the (virtual) working directory
+	index := w.Index
+	if w.Disk.Cwd == w.Dir && t.Bool(1, 3, "relative-index") {
+		index = filepath.Base(w.Index)
+		if t.Bool(1, 2, "dot-slash") {
+			index = "./" + index
+		}
+		r.Probe("relative-index-path")
+	} else if w.Disk.Cwd == filepath.Dir(w.Dir) && t.Bool(1, 2, "relative-index-from-parent") {
+		index = filepath.Base(w.Dir) + "/" + filepath.Base(w.Index)
+		r.Probe("relative-index-path")
+	}
 	// ---- Verify ----
 	gv := []int{1, 2, 3, 4, 7, 16, 64, 0}[t.Draw(8, "g-verify")]
-	v := r.Verify2(w, w.Index, gv, nil, SchedSpec{})
+	v := r.Verify2(w, index, gv, nil, SchedSpec{})
 	r.noPanic(v)
 	if prop == "C03" {
 		r.oracleVerify2(w, v, tr, hostile == "", true)
@@ -233,7 +279,7 @@ func par2Cycle(r *Run, o cycleOpts) {
 	gr := []int{1, 2, 3, 4, 7, 16, 64, 0}[t.Draw(8, "g-repair")]
 	dc := t.Bool(1, 2, "doublecheck")
 	needWork := !w.AllIntact()
-	rep := r.Repair2(w, w.Index, gr, dc, nil, r.drawSched(1, 6))
+	rep := r.Repair2(w, index, gr, dc, nil, r.drawSched(1, 6))
 	r.noPanic(rep)
 	outcome := "repaired"
 	if rep.Err != nil {
@@ -261,7 +307,7 @@ func par2Cycle(r *Run, o cycleOpts) {
 	// ---- Verify after repair ----
 	if t.Bool(1, 2, "verify-after") {
 		tr2 := w.TruthPar2()
-		v2 := r.Verify2(w, w.Index, gv, nil, SchedSpec{})
+		v2 := r.Verify2(w, index, gv, nil, SchedSpec{})
 		r.noPanic(v2)
 		if prop == "C03" {
 			r.oracleVerify2(w, v2, tr2, hostile == "", true)
